@@ -75,6 +75,7 @@ type sess struct {
 	nAdded   int
 	lastRspOK uint64 // height of the last AddBlockRsp (no error) delivered while this session ran
 	finderHonest bool
+	lied         bool // a peer gave this session an answer that is not merely late, missing or an error
 	lightNone    bool // the honest answer of the light scan was "none" (or the light scan is off)
 	fullScan     bool
 	ended        bool
@@ -132,6 +133,7 @@ type harness struct {
 
 	stepIdx   int
 	stepsLeft int
+	flood     int
 	phase     int
 	simLimit  int64
 
@@ -421,9 +423,17 @@ func (h *harness) collect() int {
 
 // answerable lists the requests the environment may answer now, in id order. AddBlock is
 // served by one ChainManager in FIFO order: only the oldest one is answerable.
+//
+// One answer is held back: an AddBlockRsp (it carries no sequence, so it reaches the block fetcher
+// of whatever session is running) while that block fetcher has not yet entered its select loop
+// for good (init() / waiting for the first hash set). It would sit in bf.responseCh next to a
+// buffered scheduler tick, and Go's select picks among ready cases at random: the only place
+// where the scheduler's choice would leak into the outputs. The answer is delivered as soon as
+// the block fetcher has its first hash set (or is gone).
 func (h *harness) answerable() []*preq {
 	var out []*preq
 	add := false
+	hold := h.sy.VerifAwaitsFirstHashSet()
 	for _, p := range h.pend {
 		if p.done {
 			continue
@@ -433,6 +443,9 @@ func (h *harness) answerable() []*preq {
 				continue
 			}
 			add = true
+			if hold {
+				continue
+			}
 		}
 		out = append(out, p)
 	}
